@@ -102,6 +102,8 @@ func HarnessC06EncoderAggregator() {
 			vCheck("F2.encoder.flushed.before.sink", log[n-2] == "enc.Flush" && log[n-1] == "sink.Close")
 		}
 	}
-	vObserve("encoded", int64(encoded))
+	// (how many samples were encoded rather than dropped depends on the interleaving: the
+	// schedule-independent sum is what the native run must agree on)
+	vObserve("encoded.plus.dropped", int64(encoded+dropped))
 	vReach("end")
 }
